@@ -22,16 +22,16 @@ inductive Val where
 
 inductive BinOp where
   | add | sub | mul | truediv | floordiv | mod | pow
-  deriving Repr, BEq, DecidableEq, Inhabited
+  deriving Repr, DecidableEq, Inhabited
 
 inductive UnOp where
   | neg | pos | abs
-  deriving Repr, BEq, DecidableEq, Inhabited
+  deriving Repr, DecidableEq, Inhabited
 
 /-- lifted functions (`distributionFunction`-wrapped) known to the model -/
 inductive Fn where
   | max | min
-  deriving Repr, BEq, DecidableEq, Inhabited
+  deriving Repr, DecidableEq, Inhabited
 
 /-! ## Python semantics on values -/
 
@@ -90,6 +90,28 @@ def vecHas (op : BinOp) (refl : Bool) : Bool :=
   | .add, _ | .sub, _ | .mul, _ | .truediv, false => true
   | _, _ => false
 
+def allZero : List Val → Bool
+  | [] => true
+  | .num q :: rest => q == 0 && allZero rest
+  | _ :: _ => false
+
+/-- operators for which the zero vector is declared an identity (`zeroIdentityVectorOperator`); the generated
+    table must agree with this (side condition `gen_vecops_expected`) -/
+def vecZeroIdentity (op : BinOp) (refl : Bool) : Bool :=
+  match op, refl with
+  | .add, _ | .sub, false => true
+  | _, _ => false
+
+/-- `all(coord == 0 for coord in w)` for a Vector / tuple / list `w` -/
+def isZeroOperand : Val → Bool
+  | .vec a b c => a == 0 && b == 0 && c == 0
+  | .seq _ xs => allZero xs
+  | _ => false
+
+/-- the *decorated* `Vector.__op__(v, w)` on non-random operands: the zero-identity shortcut, then the method -/
+def vecCall (op : BinOp) (refl : Bool) (x y z : Rat) (w : Val) : Option Val :=
+  if vecZeroIdentity op refl && isZeroOperand w then some (.vec x y z) else vecMethod op refl x y z w
+
 /-- sequence (`tuple`/`list`/`str`) concatenation and repetition as Python's `+`/`*` define them -/
 def seqBin (op : BinOp) (a b : Val) : Option Val :=
   match op, a, b with
@@ -105,8 +127,8 @@ def seqBin (op : BinOp) (a b : Val) : Option Val :=
 def pyBin (op : BinOp) (a b : Val) : Option Val :=
   match a, b with
   | .num p, .num q => (numBin op p q).map .num
-  | .vec x y z, w => vecMethod op false x y z w
-  | w, .vec x y z => if vecHas op true then vecMethod op true x y z w else none
+  | .vec x y z, w => vecCall op false x y z w
+  | w, .vec x y z => if vecHas op true then vecCall op true x y z w else none
   | a, b => seqBin op a b
 
 def pyUn (op : UnOp) : Val → Option Val
@@ -187,22 +209,19 @@ def dunder (op : BinOp) (refl : Bool) (v w : Val) : Call :=
   match v, w with
   | .num p, .num q => ofOpt ((if refl then numBin op q p else numBin op p q).map .num)
   | .num _, _ => .notImpl
-  | .vec x y z, w => ofOpt (vecMethod op refl x y z w)
+  | .vec x y z, w => ofOpt (vecCall op refl x y z w)
   | .str _, w => (match op, w with
       | .mod, .str _ => .raise              -- (string formatting is outside the model)
       | .mod, _ => if refl then .notImpl else .raise
       | op, w => ofOpt (if refl then seqBin op w v else seqBin op v w))
   | v, w => ofOpt (if refl then seqBin op w v else seqBin op v w)
 
-/-- `OperatorDistribution.sampleGiven` for a reversible binary operator.
-    `guard` = a missing attribute is treated like `NotImplemented` (generated from the source). -/
-def sampleBin (guard : Bool) (op : BinOp) (refl : Bool) (first rest : Val) : Option Val :=
-  let norm (c : Call) : Call := match c with
-    | .noAttr => if guard then .notImpl else .noAttr
-    | c => c
-  match norm (dunder op refl first rest) with
+/-- `OperatorDistribution.sampleGiven` for a reversible binary operator, as written with `getattr` and the
+    `NotImplemented` fallback: `first` is the sampled object of the node, `rest` the sampled operand. -/
+def sampleBin (op : BinOp) (refl : Bool) (first rest : Val) : Option Val :=
+  match dunder op refl first rest with
   | .ret v => some v
-  | .notImpl => (match norm (dunder op (!refl) rest first) with
+  | .notImpl => (match dunder op (!refl) rest first with
       | .ret v => some v
       | _ => none)
   | _ => none
@@ -212,7 +231,7 @@ def sampleBin (guard : Bool) (op : BinOp) (refl : Bool) (first rest : Val) : Opt
 /-- what Scenic records as `_valueType`, as far as the simplifications test it -/
 inductive STy where
   | number | vector | other
-  deriving Repr, BEq, DecidableEq, Inhabited
+  deriving Repr, DecidableEq, Inhabited
 
 mutual
   inductive Expr where
@@ -231,45 +250,80 @@ mutual
     | star (e : Expr)
 end
 
-/-- an entry of the identity-simplification table: `X op c → X` when `X._valueType ⊆ guard` and `arg == c` -/
+/-- an entry of the identity-simplification table: `X op c → X` when `X._valueType` is a number type and `arg == c` -/
 structure SimpEntry where
   op : BinOp
   refl : Bool
   const : Int
-  deriving Repr, BEq, DecidableEq
+  deriving Repr, DecidableEq
 
 /-- data regenerated from `/repo` (see `Gen/ExprTables.lean`) -/
 structure Tables where
   simp : List SimpEntry                  -- makeOperatorHandler, numbers
   vecOps : List (BinOp × Bool × Bool)    -- (op, reflected, zeroIdentity) installed on VectorDistribution
-  guardMissingAttr : Bool                -- sampleGiven treats a missing attribute as NotImplemented
+  pythonDispatch : Bool                  -- sampleGiven applies operator.add & co. to the sampled operands
   vecHandlerAcceptsSeq : Bool            -- the zero test of makeVectorOperatorHandler iterates tuples/lists too
   deriving Repr
+
+/-- the identities that are sound on numbers: `x + 0`, `0 + x`, `x - 0`, `x * 1`, `1 * x`, `x / 1`, `x ** 1` -/
+def entryOK (e : SimpEntry) : Bool :=
+  match e.op, e.refl, e.const with
+  | .add, _, 0 => true
+  | .sub, false, 0 => true
+  | .mul, _, 1 => true
+  | .truediv, false, 1 => true
+  | .pow, false, 1 => true
+  | _, _, _ => false
+
+/-- well-formedness of the generated tables (re-decided on the regenerated data on every run) -/
+def Tables.WF (T : Tables) : Bool :=
+  T.simp.all entryOK &&
+  T.vecOps.all fun e => e.2.2 == vecZeroIdentity e.1 e.2.1 && vecHas e.1 e.2.1
 
 /-- the objects Scenic's compile-time evaluation manipulates -/
 inductive Node where
   | const (v : Val)                                  -- an ordinary Python value
   | leaf (i : Nat) (ty : STy)
-  | opd2 (op : BinOp) (refl : Bool) (obj arg : Node) (ty : STy)   -- OperatorDistribution (binary dunder)
-  | opd1 (op : UnOp) (obj : Node) (ty : STy)                      -- OperatorDistribution (unary dunder)
+  | opd2 (op : BinOp) (refl : Bool) (obj arg : Node)              -- OperatorDistribution (binary dunder)
+  | opd1 (op : UnOp) (obj : Node)                                 -- OperatorDistribution (unary dunder)
   | geti (obj idx : Node)                                         -- OperatorDistribution('__getitem__')
   | lend (obj : Node)                                             -- OperatorDistribution('__len__')
-  | attrd (name : String) (obj : Node) (ty : STy)                 -- AttributeDistribution
+  | attrd (name : String) (obj : Node)                            -- AttributeDistribution
   | vop (op : BinOp) (refl : Bool) (obj arg : Node)               -- VectorOperatorDistribution
   | vmeth (op : BinOp) (refl : Bool) (x y z : Rat) (arg : Node)   -- VectorMethodDistribution on a constant Vector
   | vecOf (x y z : Node)                                          -- a Vector with random coordinates (Samplable)
   | tupd (isList : Bool) (xs : List Node)                         -- TupleDistribution
   | rawt (isList : Bool) (xs : List Node)                         -- a plain tuple/list containing random values
-  | fnd (f : Fn) (args : List Node)                               -- FunctionDistribution
-  | star (n : Node)                                               -- StarredDistribution
+  | fnd (f : Fn) (args : List Node) (starred : List Bool)         -- FunctionDistribution; `starred[i]`: args[i] is wrapped
+                                                                  -- in a StarredDistribution
   | fail                                                          -- Python raised while building
   deriving Repr, Inhabited
+
+/-- `OperatorDistribution.inferType` for a binary operator, as far as modelled -/
+def inferBin (op : BinOp) (refl : Bool) (objTy argTy : STy) : STy :=
+  match objTy, argTy with
+  | .number, .number => .number
+  | .vector, _ => if vecHas op refl then .vector else .other     -- return annotations of Vector's methods
+  | _, _ => .other
+
+/-- `inferType` for `__getitem__`: only the scalar rule applies to the types modelled -/
+def inferGetitem (objTy idxTy : STy) : STy :=
+  match objTy, idxTy with
+  | .number, .number => .number
+  | _, _ => .other
+
+def inferUn (objTy : STy) : STy :=
+  match objTy with
+  | .number => .number
+  | _ => .other
+
+def isXYZ (name : String) : Bool := name == "x" || name == "y" || name == "z"
 
 namespace Node
 
 /-- `isinstance(n, Distribution)` -/
 def isDist : Node → Bool
-  | .leaf .. | .opd2 .. | .opd1 .. | .geti .. | .lend .. | .attrd .. | .vop .. | .vmeth .. | .tupd .. | .fnd .. | .star .. => true
+  | .leaf .. | .opd2 .. | .opd1 .. | .geti .. | .lend .. | .attrd .. | .vop .. | .vmeth .. | .tupd .. | .fnd .. => true
   | _ => false
 
 /-- `isinstance(n, VectorDistribution)` -/
@@ -282,74 +336,76 @@ def isLazy : Node → Bool
   | .vecOf .. => true          -- only built with at least one random coordinate
   | n => n.isDist
 
-/-- `_valueType` as far as modelled -/
+/-- `_valueType` (`type(v)` for constants) as far as modelled: what the node was given when it was constructed.
+    (A VectorOperatorDistribution is only ever built on a vector-typed object; for other `vop` nodes,
+    which `build` never produces, the type is reported as unknown.) -/
 def vty : Node → STy
   | .const (.num _) => .number
   | .const (.vec ..) => .vector
   | .leaf _ ty => ty
-  | .opd2 _ _ _ _ ty => ty
-  | .opd1 _ _ ty => ty
+  | .opd2 op refl obj arg => inferBin op refl obj.vty arg.vty
+  | .opd1 _ obj => inferUn obj.vty
   | .lend _ => .number
-  | .attrd _ _ ty => ty
-  | .vop .. | .vmeth .. | .vecOf .. => .vector
+  | .geti obj idx => inferGetitem obj.vty idx.vty
+  | .attrd name obj => if obj.vty == .vector && isXYZ name then .number else .other
+  | .vop _ _ obj _ => if obj.vty == .vector then .vector else .other
+  | .vmeth .. | .vecOf .. => .vector
   | _ => .other
+
+def isRaw : Node → Bool
+  | .rawt .. => true
+  | _ => false
+
+def isFail : Node → Bool
+  | .fail => true
+  | _ => false
+
+def isConst : Node → Bool
+  | .const _ => true
+  | _ => false
 
 end Node
 
-/-- `toDistribution` -/
-def toDist : Node → Node
-  | .rawt k xs => .tupd k (toDistList xs)
-  | n => n
-where
-  toDistList : List Node → List Node
+mutual
+  /-- `toDistribution` -/
+  def toDist : Node → Node
+    | .rawt k xs => .tupd k (toDistList xs)
+    | n => n
+  def toDistList : List Node → List Node
     | [] => []
     | x :: rest => toDist x :: toDistList rest
+end
 
-/-- `OperatorDistribution.inferType` for a binary operator, as far as modelled -/
-def inferBin (op : BinOp) (refl : Bool) (objTy argTy : STy) : STy :=
-  match objTy, argTy with
-  | .number, .number => .number
-  | .vector, _ => if vecHas op refl then .vector else .other     -- return annotations of Vector's methods
-  | _, _ => .other
-
-def inferUn (objTy : STy) : STy :=
-  match objTy with
-  | .number => .number
-  | _ => .other
+/-- the guard of an identity simplification in `makeOperatorHandler`:
+    `not isLazy(arg) and issubclass(self._valueType, numbers.Number) and arg == c` -/
+def simplifies (T : Tables) (op : BinOp) (refl : Bool) (self arg : Node) : Bool :=
+  match arg with
+  | .const (.num c) => self.vty == .number &&
+      T.simp.any fun e => e.op == op && e.refl == refl && ((e.const : Rat) == c)
+  | _ => false
 
 /-- `Distribution.__op__` / `__rop__` (makeOperatorHandler) -/
 def handler (T : Tables) (op : BinOp) (refl : Bool) (self arg : Node) : Node :=
-  let simplifies : Bool := match arg with
-    | .const (.num c) => self.vty == .number &&
-        T.simp.any fun e => e.op == op && e.refl == refl && ((e.const : Rat) == c)
-    | _ => false
-  if simplifies then self
-  else .opd2 op refl self (toDist arg) (inferBin op refl self.vty (toDist arg).vty)
+  if simplifies T op refl self arg then self else .opd2 op refl self (toDist arg)
 
 def isZero3 : Val → Option Bool      -- `all(coord == 0 for coord in arg.coordinates)`; none = AttributeError
   | .vec x y z => some (x == 0 && y == 0 && z == 0)
   | _ => none
 
-def allZero : List Val → Bool
-  | [] => true
-  | .num q :: rest => q == 0 && allZero rest
-  | _ :: _ => false
+def vecOpsLookup (T : Tables) (op : BinOp) (refl : Bool) : Option Bool :=
+  (T.vecOps.find? (fun e => e.1 == op && e.2.1 == refl)).map (·.2.2)
 
 /-- `VectorDistribution.__op__` (makeVectorOperatorHandler), for the operators in `T.vecOps`;
     other operators fall back to `handler` -/
 def vhandler (T : Tables) (op : BinOp) (refl : Bool) (self arg : Node) : Node :=
-  match T.vecOps.find? (fun e => e.1 == op && e.2.1 == refl) with
+  match vecOpsLookup T op refl with
   | none => handler T op refl self arg
-  | some (_, _, zeroIdentity) =>
+  | some zeroIdentity =>
     if zeroIdentity && !arg.isLazy then
       match arg with
       | .const v =>
         if T.vecHandlerAcceptsSeq then
-          (let zero : Bool := match v with
-            | .vec x y z => x == 0 && y == 0 && z == 0
-            | .seq _ xs => allZero xs
-            | _ => false
-           if zero then self else .vop op refl self arg)
+          (if isZeroOperand v then self else .vop op refl self arg)
         else (match isZero3 v with
           | some true => self
           | some false => .vop op refl self arg
@@ -357,16 +413,14 @@ def vhandler (T : Tables) (op : BinOp) (refl : Bool) (self arg : Node) : Node :=
       | _ => .fail                       -- a raw tuple has no `.coordinates` / contains random values
     else .vop op refl self arg
 
-/-- `Vector.__op__(self, arg)` where `self` is a (possibly random-coordinate) Vector: the `vectorOperator` helper -/
-def vecHelper (T : Tables) (op : BinOp) (refl : Bool) (self arg : Node) : Node :=
-  -- `Vector.__rmul__` is the undecorated `return self.__mul__(other)`
-  let refl := if op == .mul then false else refl
+/-- `Vector.__op__(self, arg)` (`refl`: `Vector.__rop__`) where `self` is a (possibly random-coordinate) Vector:
+    the `vectorOperator` helper -/
+def vecHelperCore (T : Tables) (op : BinOp) (refl : Bool) (self arg : Node) : Node :=
   if !vecHas op refl then
     -- Vector does not define the method: Python falls back to the other operand's reflected method
     (if arg.isDist && !refl then (if arg.isVecDist then vhandler T op true arg self else handler T op true arg self)
      else .fail)
   else
-  let zeroIdentity := (T.vecOps.find? (fun e => e.1 == op && e.2.1 == refl)).map (·.2.2) == some true
   if arg.isLazy then
     match self with
     | .const (.vec x y z) => .vmeth op refl x y z arg
@@ -374,16 +428,58 @@ def vecHelper (T : Tables) (op : BinOp) (refl : Bool) (self arg : Node) : Node :
   else
     match arg with
     | .const v =>
-      let zero : Bool := zeroIdentity && (match v with
-        | .vec x y z => x == 0 && y == 0 && z == 0
-        | .seq _ xs => allZero xs
-        | _ => false)
-      if zero then self else .vop op refl self arg
+      if vecOpsLookup T op refl == some true && isZeroOperand v then self else .vop op refl self arg
     | _ => .fail        -- raw tuple operands of vector operators are outside the model
+
+/-- `Vector.__rmul__` is the undecorated `return self.__mul__(other)` -/
+def vecHelper (T : Tables) (op : BinOp) (refl : Bool) (self arg : Node) : Node :=
+  vecHelperCore T op (if op == .mul then false else refl) self arg
+
+def mkVec : Val → Val → Val → Option Val
+  | .num a, .num b, .num c => some (.vec a b c)
+  | _, _, _ => none
 
 def optNode : Option Val → Node
   | some v => .const v
   | none => .fail
+
+/-- `c op r` where `c` is a constant that is not a Vector and `r` is not a constant: Python tries `type(c).__op__`,
+    which does not know `r`, then `r.__rop__(c)` -/
+def constLeft (T : Tables) (op : BinOp) (c : Val) (l r : Node) : Node :=
+  if r.isVecDist then vhandler T op true r l
+  else if r.isDist then handler T op true r l
+  else match r with
+    | .vecOf .. => vecHelper T op true r l
+    | .rawt k ys => (match op, c with
+        | .add, .seq k' xs => if k == k' then .rawt k (xs.map .const ++ ys) else .fail
+        | .mul, .num n => (match asIndex n with
+            | some i => if i ≤ 0 then .const (.seq k []) else .rawt k (repeatList i ys)
+            | none => .fail)
+        | _, _ => .fail)
+    | _ => .fail
+
+/-- `l op r` where not both operands are constants and neither failed -/
+def binGen (T : Tables) (op : BinOp) (l r : Node) : Node :=
+  if l.isVecDist then vhandler T op false l r
+  else if l.isDist then
+    -- a VectorDistribution on the right is a Distribution too: no subclass priority applies
+    handler T op false l r
+  else match l with
+    | .vecOf .. => vecHelper T op false l r
+    | .const (.vec ..) => vecHelper T op false l r
+    | .const (.str s) =>
+      -- str.__mod__ succeeds on any object (formats it): outside the model
+      if op == .mod then .fail else constLeft T op (.str s) l r
+    | .const c => constLeft T op c l r
+    | .rawt k xs =>
+      (match op, r with
+       | .add, .rawt k' ys => if k == k' then .rawt k (xs ++ ys) else .fail
+       | .add, .const (.seq k' ys) => if k == k' then .rawt k (xs ++ ys.map .const) else .fail
+       | .mul, .const (.num n) => (match asIndex n with
+           | some i => if i ≤ 0 then .const (.seq k []) else .rawt k (repeatList i xs)
+           | none => .fail)
+       | _, r => if r.isVecDist then vhandler T op true r l else if r.isDist then handler T op true r l else .fail)
+    | _ => .fail
 
 /-- Python evaluating `l op r` at compile time, where `l`, `r` are the already-built operands -/
 def binBuild (T : Tables) (op : BinOp) (l r : Node) : Node :=
@@ -391,45 +487,13 @@ def binBuild (T : Tables) (op : BinOp) (l r : Node) : Node :=
   | .fail, _ => .fail
   | _, .fail => .fail
   | .const a, .const b => optNode (pyBin op a b)
-  | l, r =>
-    if l.isVecDist then vhandler T op false l r
-    else if l.isDist then
-      -- a VectorDistribution on the right is a Distribution too: no subclass priority applies
-      handler T op false l r
-    else match l with
-      | .vecOf .. => vecHelper T op false l r
-      | .const (.vec ..) => vecHelper T op false l r
-      | .const (.str _) =>
-        -- str.__mod__ succeeds on any object (formats it): outside the model
-        if op == .mod then .fail
-        else if r.isVecDist then vhandler T op true r l else if r.isDist then handler T op true r l
-        else (match r with | .vecOf .. => vecHelper T op true r l | _ => .fail)
-      | .const c =>
-        if r.isVecDist then vhandler T op true r l else if r.isDist then handler T op true r l
-        else (match r with
-          | .vecOf .. => vecHelper T op true r l
-          | .rawt k ys => (match op, c with
-              | .add, .seq k' xs => if k == k' then .rawt k (xs.map .const ++ ys) else .fail
-              | .mul, .num n => (match asIndex n with
-                  | some i => if i ≤ 0 then .const (.seq k []) else .rawt k (repeatList i ys)
-                  | none => .fail)
-              | _, _ => .fail)
-          | _ => .fail)
-      | .rawt k xs =>
-        (match op, r with
-         | .add, .rawt k' ys => if k == k' then .rawt k (xs ++ ys) else .fail
-         | .add, .const (.seq k' ys) => if k == k' then .rawt k (xs ++ ys.map .const) else .fail
-         | .mul, .const (.num n) => (match asIndex n with
-             | some i => if i ≤ 0 then .const (.seq k []) else .rawt k (repeatList i xs)
-             | none => .fail)
-         | _, r => if r.isVecDist then vhandler T op true r l else if r.isDist then handler T op true r l else .fail)
-      | _ => .fail
+  | l, r => binGen T op l r
 
 def unBuild (op : UnOp) (n : Node) : Node :=
   match n with
   | .fail => .fail
   | .const v => optNode (pyUn op v)
-  | n => if n.isDist then .opd1 op n (inferUn n.vty) else .fail     -- Vector / tuple have no __neg__ etc.
+  | n => if n.isDist then .opd1 op n else .fail     -- Vector / tuple have no __neg__ etc.
 
 def constIndex : Node → Option Int
   | .const (.num q) => asIndex q
@@ -464,9 +528,7 @@ def attrBuild (name : String) (n : Node) : Node :=
   | .fail => .fail
   | .const v => optNode (pyAttr name v)
   | .vecOf x y z => if name = "x" then x else if name = "y" then y else if name = "z" then z else .fail
-  | n => if n.isDist then
-      .attrd name n (if n.vty == .vector && (name = "x" || name = "y" || name = "z") then .number else .other)
-    else .fail
+  | n => if n.isDist then .attrd name n else .fail
 
 def anyFail : List Node → Bool
   | [] => false
@@ -485,32 +547,35 @@ def seqBuild (k : Bool) (ns : List Node) : Node :=
   | none => .rawt k ns
 
 def vecBuild (x y z : Node) : Node :=
-  if anyFail [x, y, z] then .fail else
-  match allConst [x, y, z] with
-  | some [.num a, .num b, .num c] => .const (.vec a b c)
-  | some _ => .fail                  -- Vectors of non-numbers are outside the model
-  | none => .vecOf x y z
+  match x, y, z with
+  | .fail, _, _ => .fail
+  | _, .fail, _ => .fail
+  | _, _, .fail => .fail
+  | .const a, .const b, .const c => optNode (mkVec a b c)     -- Vectors of non-numbers are outside the model
+  | x, y, z => .vecOf x y z
 
-/-- `wrapStarredValue` followed by Python's `*` unpacking in the call: the list of actual arguments -/
-def starBuild (n : Node) : Option (List Node) :=
+/-- `wrapStarredValue` followed by Python's `*` unpacking in the call: the actual arguments, each with the flag
+    "is a StarredDistribution" -/
+def starBuild (n : Node) : Option (List Node × List Bool) :=
   match n with
   | .fail => none
-  | .const v => (iterVals v).map (·.map .const)
-  | .rawt _ xs => some xs
-  | .tupd _ xs => some xs
+  | .const v => (iterVals v).map fun xs => (xs.map .const, xs.map fun _ => false)
+  | .rawt _ xs => some (xs, xs.map fun _ => false)
+  | .tupd _ xs => some (xs, xs.map fun _ => false)
   | .vecOf .. => none              -- "iterable unpacking cannot be applied to Vector"
-  | n => if n.isDist then some [.star n] else none
+  | n => if n.isDist then some ([n], [true]) else none
 
 /-- the `distributionFunction` helper -/
-def callBuild (f : Fn) (args : Option (List Node)) : Node :=
+def callBuild (f : Fn) (args : Option (List Node × List Bool)) : Node :=
   match args with
   | none => .fail
-  | some ns =>
+  | some (ns, ss) =>
     if anyFail ns then .fail else
-    let ds := toDist.toDistList ns
+    let ds := toDistList ns
+    if ss.any id then .fnd f ds ss else
     match allConst ds with
     | some vs => optNode (fnApply f vs)
-    | none => .fnd f ds
+    | none => .fnd f ds ss
 
 mutual
   /-- what Scenic's compile-time evaluation of the expression produces -/
@@ -528,58 +593,65 @@ mutual
   def buildList (T : Tables) : List Expr → List Node
     | [] => []
     | e :: rest => build T e :: buildList T rest
-  def buildArgs (T : Tables) : List Arg → Option (List Node)
-    | [] => some []
-    | .pos e :: rest => (buildArgs T rest).map (build T e :: ·)
-    | .star e :: rest => (starBuild (build T e)).bind fun xs => (buildArgs T rest).map (xs ++ ·)
+  def buildArgs (T : Tables) : List Arg → Option (List Node × List Bool)
+    | [] => some ([], [])
+    | .pos e :: rest => (buildArgs T rest).map fun (ns, ss) => (build T e :: ns, false :: ss)
+    | .star e :: rest =>
+      (starBuild (build T e)).bind fun (xs, fs) => (buildArgs T rest).map fun (ns, ss) => (xs ++ ns, fs ++ ss)
 end
 
 /-! ## Evaluation -/
 
 abbrev Env := Nat → Val
 
-def seqM : List (Option Val) → Option (List Val)
-  | [] => some []
-  | x :: rest => x.bind fun v => (seqM rest).map (v :: ·)
+/-- a primitive distribution only produces values of its declared `_valueType` (assumption on the leaves) -/
+def leafOK (v : Val) : STy → Bool
+  | .number => (match v with | .num _ => true | _ => false)
+  | .vector => (match v with | .vec .. => true | _ => false)
+  | .other => true
+
+def leafVal (env : Env) (i : Nat) (ty : STy) : Option Val :=
+  if leafOK (env i) ty then some (env i) else none
 
 mutual
   /-- sampling the forest: `sampleGiven` of every node, given the values of the leaves -/
   def evalNode (T : Tables) (env : Env) : Node → Option Val
     | .const v => some v
-    | .leaf i _ => some (env i)
-    | .opd2 op refl obj arg _ =>
-      (evalNode T env obj).bind fun a => (evalNode T env arg).bind fun b => sampleBin T.guardMissingAttr op refl a b
-    | .opd1 op obj _ => (evalNode T env obj).bind (pyUn op)
+    | .leaf i ty => leafVal env i ty
+    | .opd2 op refl obj arg =>
+      (evalNode T env obj).bind fun a => (evalNode T env arg).bind fun b =>
+        if T.pythonDispatch then (if refl then pyBin op b a else pyBin op a b) else sampleBin op refl a b
+    | .opd1 op obj => (evalNode T env obj).bind (pyUn op)
     | .geti obj idx => (evalNode T env obj).bind fun a => (evalNode T env idx).bind fun b => pyGetitem a b
     | .lend obj => (evalNode T env obj).bind pyLen
-    | .attrd name obj _ => (evalNode T env obj).bind (pyAttr name)
+    | .attrd name obj => (evalNode T env obj).bind (pyAttr name)
     | .vop op refl obj arg =>
       (evalNode T env obj).bind fun a => (evalNode T env arg).bind fun b =>
         (match dunder op refl a b with | .ret v => some v | _ => none)
     | .vmeth op refl x y z arg => (evalNode T env arg).bind fun b => vecMethod op refl x y z b
     | .vecOf x y z =>
-      (evalNode T env x).bind fun a => (evalNode T env y).bind fun b => (evalNode T env z).bind fun c =>
-        (match a, b, c with | .num a, .num b, .num c => some (.vec a b c) | _, _, _ => none)
+      (evalNode T env x).bind fun a => (evalNode T env y).bind fun b => (evalNode T env z).bind fun c => mkVec a b c
     | .tupd k xs => (evalNodes T env xs).map (.seq k)
     | .rawt k xs => (evalNodes T env xs).map (.seq k)
-    | .fnd f args => (evalArgs T env args).bind (fnApply f)
-    | .star n => evalNode T env n
+    | .fnd f args starred => (evalArgs T env args starred).bind (fnApply f)
     | .fail => none
   def evalNodes (T : Tables) (env : Env) : List Node → Option (List Val)
     | [] => some []
     | n :: rest => (evalNode T env n).bind fun v => (evalNodes T env rest).map (v :: ·)
   /-- arguments of a FunctionDistribution: starred ones are extended -/
-  def evalArgs (T : Tables) (env : Env) : List Node → Option (List Val)
-    | [] => some []
-    | .star n :: rest => (evalNode T env n).bind fun v => (iterVals v).bind fun xs => (evalArgs T env rest).map (xs ++ ·)
-    | n :: rest => (evalNode T env n).bind fun v => (evalArgs T env rest).map (v :: ·)
+  def evalArgs (T : Tables) (env : Env) : List Node → List Bool → Option (List Val)
+    | [], _ => some []
+    | n :: rest, true :: ss =>
+      (evalNode T env n).bind fun v => (iterVals v).bind fun xs => (evalArgs T env rest ss).map (xs ++ ·)
+    | n :: rest, _ :: ss => (evalNode T env n).bind fun v => (evalArgs T env rest ss).map (v :: ·)
+    | n :: rest, [] => (evalNode T env n).bind fun v => (evalArgs T env rest []).map (v :: ·)
 end
 
 mutual
   /-- **ordinary Python** on the sampled leaves -/
   def evalPy (env : Env) : Expr → Option Val
     | .const v => some v
-    | .leaf i _ => some (env i)
+    | .leaf i ty => leafVal env i ty
     | .bin op l r => (evalPy env l).bind fun a => (evalPy env r).bind fun b => pyBin op a b
     | .un op e => (evalPy env e).bind (pyUn op)
     | .getitem e i => (evalPy env e).bind fun a => (evalPy env i).bind fun b => pyGetitem a b
@@ -587,8 +659,7 @@ mutual
     | .attr e name => (evalPy env e).bind (pyAttr name)
     | .mkseq k es => (evalPyList env es).map (.seq k)
     | .mkvec x y z =>
-      (evalPy env x).bind fun a => (evalPy env y).bind fun b => (evalPy env z).bind fun c =>
-        (match a, b, c with | .num a, .num b, .num c => some (.vec a b c) | _, _, _ => none)
+      (evalPy env x).bind fun a => (evalPy env y).bind fun b => (evalPy env z).bind fun c => mkVec a b c
     | .call f args => (evalPyArgs env args).bind (fnApply f)
   def evalPyList (env : Env) : List Expr → Option (List Val)
     | [] => some []
